@@ -15,6 +15,7 @@ SUBST = SUBST_COMMON + [
     (r'Rc<RefCell<Option<IoError>>>', 'ErrCell'),
     (r"Cow<'input, Tag>", "CowTag<'input>"),
 ]
+import re
 import importlib.util as _ilu, os as _os
 _sp = _ilu.spec_from_file_location('contracts_budget_for_live', _os.path.join(_os.path.dirname(__file__), 'budget.py'))
 _bm = _ilu.module_from_spec(_sp); _sp.loader.exec_module(_bm)
@@ -618,4 +619,85 @@ ITEMS += [
                    (r'ring_reader::SharedRingReader::new\(reader\)', 'shared_ring_new(reader)', 1, 'R8'),
                    (r'ring_reader::SharedRingReaderHandle::new\(&shared_ring\)', 'shared_ring_handle(&shared_ring)', 1, 'R8')],
          ensures=[('C17:the_recent_bytes_window_is_filled_with_the_decoded_text_that_locations_refer_to', 'r.0.holds_decoded_text()')]),
+]
+# ---- the feature-gated copies of the document iterator (garde: read_with_options_valid, validator: read_with_options_validate) ----
+# Same obligations as ReadIter::next: no result that carries the deferred reader error is discarded before the stream ends
+# quietly or delivers a document (C10), a finished iterator stays finished (C11).  The validation call and the construction
+# of the validation error are opaque (they do not touch the event source).
+def _valid_iter(fn, struct, feature, validate_re, error_re, errvar):
+    return [
+        dict(src='src/lib.rs', path='fn %s/struct %s' % (fn, struct), features=[feature],
+             rewrites=[(r"struct %s<'a, T>" % struct, "struct %s<'a>" % struct, 1, 'R9'), (r'_marker: std::marker::PhantomData<T>,', '', 1, 'R9'),
+                       (r'cfg: crate::de::Cfg,', 'cfg: Cfg,', 1, 'R6')]),
+        dict(src='src/lib.rs', path='fn %s/impl Iterator for %s/fn next' % (fn, struct), id='%s::next' % struct, impl_header="impl<'a> %s<'a>" % struct,
+             features=[feature], props=['C10', 'C11', 'C01'],
+             attrs='#[verifier::exec_allows_no_decreases_clause]',
+             rewrites=[(r'fn next\(&mut self\) -> Option<Self::Item>', 'fn next(&mut self) -> Option<Result<DocVal, Error>>', 1, 'R9'),
+                       (r'scalar_is_nullish\(value, style\)', 'scalar_is_nullish(value.as_ref(), style)', 1, 'R15'),
+                       (r'let mut recorder = crate::path_map::PathRecorder::new\(\);\s*let value_res = crate::anchor_store::with_document_scope\(\|\| \{\s*T::deserialize\(crate::de::YamlDeserializer::new_with_path_recorder\(\s*&mut self\.src,\s*self\.cfg,\s*&mut recorder,\s*\)\)\s*\}\);',
+                        'let recorder = path_recorder_new(); let value_res = deserialize_document(&mut self.src, self.cfg);', 1, 'R8+R18'),
+                       (validate_re, 'validate_document(&value)', 1, 'R8'),
+                       (error_re, 'validation_error(%s, recorder)' % errvar, 1, 'R8'),
+                       (r'Ok\(\(\)\) => return Some\(Ok\(value\)\),', 'Ok(()) => { return Some(Ok(value)); }', 1, 'R18'),
+                       (r'self\.src\.skip_to_next_document\(\)', 'iter_skip_to_next_document(&mut self.src)', None, 'R8'),
+                       (r'let _ = self\.src\.next\(\);', 'let __d = self.src.next(); proof { dropped = dropped || (__d is Err && __d->Err_0 is IOError); }', None, 'R37'),
+                       (r'let _ = self\.src\.finish\(\);', 'let __d = self.src.finish(); proof { dropped = dropped || (__d is Err && __d->Err_0 is IOError); }', None, 'R37')],
+             proofs=[dict(at='start', ghost=True, text='let ghost mut dropped = false;'),
+                     dict(before='return None;', nth=2, label='C10:the_stream_never_ends_quietly_after_a_reader_error_was_discarded', text='assert(!dropped);'),
+                     dict(before='return Some(Ok(value))', label='C10:a_document_is_never_delivered_after_a_reader_error_was_discarded', text='assert(!dropped);')],
+             ensures=[('C11:a_finished_iterator_stays_finished', 'old(self).finished ==> r is None && *final(self) == *old(self)'),
+                      ('C11:the_iterator_ends_only_when_it_marks_itself_finished', 'r is None ==> final(self).finished')],
+             loops={1: dict(header=r'^loop$', invariant=[('tracking', '!self.finished && !old(self).finished'),
+                                                         ('C10:no_reader_error_has_been_discarded_so_far', '!dropped')])},
+             canaries=['C11:the_iterator_ends_only_when_it_marks_itself_finished']),
+    ]
+ITEMS += _valid_iter('read_with_options_valid', 'ReadValidIter', 'garde', r'Validate::validate\(&value\)',
+                     r'Error::ValidationError \{\s*report,\s*locations: recorder\.map,\s*\}', 'report')
+ITEMS += _valid_iter('read_with_options_validate', 'ReadValidateIter', 'validator', r'ValidatorValidate::validate\(&value\)',
+                     r'Error::ValidatorError \{\s*errors,\s*locations: recorder\.map,\s*\}', 'errors')
+# ---- the leftover checks of the feature-gated single-document entry points (same obligations as the two above) ----
+_LEFT_ENS = [('C05:nothing_may_be_left_after_the_root_value', 'r is Ok ==> old(src).rest().len() == 0 || final(src).seen_doc_end'),
+             ('C10:a_value_is_returned_only_after_finish_found_no_stored_reader_error', 'r is Ok ==> final(src).error.content() is None')]
+ITEMS += [
+    dict(src='src/lib.rs', path='fn from_str_with_options_and_path_recorder', id='from_str_with_options_and_path_recorder#leftover_check',
+         fragment=r'match src\.peek\(\) \{.*?src\.finish\(\)\s*\.map_err\(\|e\| maybe_with_snippet\(e, input, with_snippet, crop_radius\)\)\?;',
+         fragment_flags='S',
+         wrapper="fn from_str_recorded_leftover_check_fragment<'a>(src: &mut LiveEvents<'a>, input: &str, with_snippet: bool, crop_radius: usize, value: DocVal) -> Result<DocVal, Error> { {FRAG} Ok(value) }",
+         props=['C05', 'C11', 'C09', 'C10', 'C01'],
+         rewrites=[(r'Error::multiple_documents\("use from_multiple or from_multiple_with_options"\)', 'error_multiple_documents("use from_multiple or from_multiple_with_options")', None, 'R8'),
+                   (r'src\.finish\(\)\s*\.map_err\(\|e\| maybe_with_snippet\(e, input, with_snippet, crop_radius\)\)\?;',
+                    'match src.finish() { Ok(__v) => __v, Err(e) => { return Err(maybe_with_snippet(e, input, with_snippet, crop_radius)); } };', None, 'R18')],
+         ensures=_LEFT_ENS, canaries=['C05:nothing_may_be_left_after_the_root_value']),
+]
+for _fn, _hint in (('from_reader_with_options_valid', 'use read_valid or read_with_options_valid to obtain the iterator'),
+                   ('from_reader_with_options_validate', 'use read_validate or read_with_options_validate to obtain the iterator')):
+    ITEMS.append(dict(src='src/lib.rs', path='fn ' + _fn, id=_fn + '#leftover_check',
+         fragment=r'match src\.peek\(\) \{.*?src\.finish\(\)\?;', fragment_flags='S',
+         wrapper="fn %s_leftover_check_fragment<'a>(src: &mut LiveEvents<'a>, value: DocVal) -> Result<DocVal, Error> { {FRAG} Ok(value) }" % _fn,
+         props=['C05', 'C11', 'C09', 'C10', 'C01'],
+         rewrites=[(r'Error::multiple_documents\(\s*"%s",?\s*\)' % re.escape(_hint), 'error_multiple_documents("%s")' % _hint, None, 'R8')],
+         ensures=_LEFT_ENS, canaries=['C05:nothing_may_be_left_after_the_root_value']))
+# ---- the feature-gated batch entry points (from_multiple_with_options_valid / _validate): their document loops ----
+def _valid_batch(fn, feature, validate_re, error_re, errvar):
+    return dict(src='src/lib.rs', path='fn ' + fn, id=fn + '#loop', props=['C11', 'C10', 'C01'], features=[feature],
+         attrs='#[verifier::exec_allows_no_decreases_clause]',
+         fragment=r'let mut values = Vec::new\(\);\s*let mut validation_errors: Vec<Error> = Vec::new\(\);\s*loop \{.*?\}\s*src\.finish\(\)\s*\.map_err\(\|e\| maybe_with_snippet\(e, input, with_snippet, crop_radius\)\)\?;', fragment_flags='S',
+         wrapper="fn %s_loop_fragment<'a>(mut src: LiveEvents<'a>, cfg: Cfg, input: &str, with_snippet: bool, crop_radius: usize) -> Result<(Vec<DocVal>, Vec<Error>), Error> { {FRAG} Ok((values, validation_errors)) }" % fn,
+         pre_rewrites=[(r'let mut values = Vec::new\(\);', 'let mut values: Vec<DocVal> = Vec::new();', 1, 'R9')],
+         rewrites=[(r'scalar_is_nullish\(s, style\)', 'scalar_is_nullish(s.as_ref(), style)', None, 'R15'),
+                   (r'let mut recorder = crate::path_map::PathRecorder::new\(\);\s*let value_res = crate::anchor_store::with_document_scope\(\|\| \{\s*T::deserialize\(crate::de::YamlDeserializer::new_with_path_recorder\(\s*&mut src,\s*cfg,\s*&mut recorder,\s*\)\)\s*\}\);',
+                    'let recorder = path_recorder_new(); let value_res = deserialize_document(&mut src, cfg);', 1, 'R8+R18'),
+                   (validate_re, 'validate_document(&value)', 1, 'R8'),
+                   (error_re, 'validation_error(%s, recorder)' % errvar, 1, 'R8'),
+                   (r'src\.finish\(\)\s*\.map_err\(\|e\| maybe_with_snippet\(e, input, with_snippet, crop_radius\)\)\?;',
+                    'match src.finish() { Ok(__v) => __v, Err(e) => { return Err(maybe_with_snippet(e, input, with_snippet, crop_radius)); } };', None, 'R18'),
+                   (r'let _ = src\.next\(\)\?;', 'let __skipped = src.next()?;', None, 'R37')],
+         proofs=[dict(after='let __skipped = src.next()?;', label='C11:only_a_document_that_is_a_plain_null_like_scalar_is_skipped_and_exactly_that_scalar_is_consumed',
+                      text='assert(__skipped is Some && (match __skipped->Some_0 { Ev::Scalar { value, style, .. } => live_nullish(value@, style), _ => false }));'),
+                 dict(before_re=r'match src\.finish\(\)', label='C11:the_batch_ends_only_when_the_stream_has_no_more_events', text='assert(src.rest().len() == 0);')],
+         ensures=[('values_are_returned_only_after_finish', 'r is Ok ==> true')],
+         loops={1: dict(header=r'^loop$', invariant_except_break=[('running', 'true')], ensures=[('C11:the_loop_is_left_only_when_the_stream_has_no_more_events', 'src.rest().len() == 0')])})
+ITEMS += [
+    _valid_batch('from_multiple_with_options_valid', 'garde', r'Validate::validate\(&value\)', r'Error::ValidationError \{\s*report,\s*locations: recorder\.map,\s*\}', 'report'),
+    _valid_batch('from_multiple_with_options_validate', 'validator', r'ValidatorValidate::validate\(&value\)', r'Error::ValidatorError \{\s*errors,\s*locations: recorder\.map,\s*\}', 'errors'),
 ]
